@@ -20,6 +20,7 @@ import (
 	"fmt"
 	"math/bits"
 	"os"
+	"runtime/pprof"
 	"sort"
 	"sync"
 
@@ -46,6 +47,8 @@ type state struct {
 
 var coop = kgo.CooperativeStickyBalancer()
 
+var slotIDs = [maxSlots]string{"m0", "m1", "m2", "m3"}
+
 func (s *state) numFlat() int {
 	n := 0
 	for _, p := range s.Parts {
@@ -61,7 +64,7 @@ func (s *state) toCase(order int) (c *balenum.Case, idx []int) {
 	for i := range s.M {
 		if s.M[i].Present {
 			idx = append(idx, i)
-			c.IDs = append(c.IDs, fmt.Sprintf("m%d", i))
+			c.IDs = append(c.IDs, slotIDs[i])
 			c.Subs = append(c.Subs, s.M[i].Subs)
 			c.Gens = append(c.Gens, s.M[i].Gen)
 		}
@@ -273,45 +276,96 @@ type artefact struct {
 	Order int      `json:"topic_order"`
 	Path  []string `json:"path_from_start"`
 	Steps []step   `json:"rounds"`
+	// CleanExample: smallest violating state of the same class in which
+	// nobody's claims conflict and everybody is on one generation.
+	CleanExample *artefact `json:"conflict_free_example,omitempty"`
 }
 
 type explorer struct {
 	slots  int
 	orders int
 	coll   *balenum.Collector
+	clean  *balenum.Collector // same keys, restricted to conflict-free same-generation states
+}
+
+// isClean: every partition has at most one claimant and all claimants are on
+// one generation -- what a group that was never disturbed looks like.
+func isClean(s *state) bool {
+	var union uint32
+	gen, have := int32(0), false
+	for i := range s.M {
+		if !s.M[i].Present || s.M[i].Owned == 0 {
+			continue
+		}
+		if union&s.M[i].Owned != 0 {
+			return false
+		}
+		union |= s.M[i].Owned
+		if have && s.M[i].Gen != gen {
+			return false
+		}
+		gen, have = s.M[i].Gen, true
+	}
+	return true
 }
 
 // chain runs the stable continuation S -> R1 -> R2 -> R3 and applies the
 // oracle. It returns R1 (nil if the first round failed) and the number of
 // rounds executed.
+func mkSteps(rr []roundResult) []step {
+	out := make([]step, 0, len(rr))
+	for _, r := range rr {
+		out = append(out, step{r.c.Describe(), balenum.FormatPlan(r.plan)})
+	}
+	return out
+}
+
 func (e *explorer) chain(s *state, order int, path []string, report bool) (*state, int, *balenum.Verdict, []step) {
-	var steps []step
+	var rr []roundResult
 	rounds := 0
 	r1 := round(s, order)
 	rounds++
-	steps = append(steps, step{r1.c.Describe(), balenum.FormatPlan(r1.plan)})
+	rr = append(rr, r1)
 	if r1.v != nil {
-		return r1.next, rounds, r1.v, steps
+		return r1.next, rounds, r1.v, mkSteps(rr)
 	}
 	r2 := round(r1.next, order)
 	rounds++
-	steps = append(steps, step{r2.c.Describe(), balenum.FormatPlan(r2.plan)})
+	rr = append(rr, r2)
 	if r2.v != nil {
-		return r1.next, rounds, r2.v, steps
+		return r1.next, rounds, r2.v, mkSteps(rr)
 	}
 	if v := balenum.CheckValid(r2.c, r2.plan, false); v != nil {
-		return r1.next, rounds, &balenum.Verdict{Key: "convergence:second-round-incomplete", What: "after every member revoked what it lost and rejoined, the next round still does not produce a complete assignment: " + v.What}, steps
+		// Keep going (only on this failing path) to tell "one round late"
+		// from "never settles".
+		cur, settled := r2, 0
+		for k := 3; k <= 8 && settled == 0; k++ {
+			nx := round(cur.next, order)
+			rounds++
+			rr = append(rr, nx)
+			if nx.v != nil {
+				break
+			}
+			if balenum.CheckValid(nx.c, nx.plan, false) == nil {
+				settled = k
+			}
+			cur = nx
+		}
+		if settled == 0 {
+			return r1.next, rounds, &balenum.Verdict{Key: "convergence:not-complete-within-8-rounds", What: "after every member revoked what it lost and rejoined, no later round (up to 8) produces a complete assignment: " + v.What}, mkSteps(rr)
+		}
+		return r1.next, rounds, &balenum.Verdict{Key: "convergence:second-round-incomplete", What: fmt.Sprintf("after every member revoked what it lost and rejoined, the next round still does not produce a complete assignment (%s); the assignment is first complete after round %d", v.What, settled)}, mkSteps(rr)
 	}
 	r3 := round(r2.next, order)
 	rounds++
-	steps = append(steps, step{r3.c.Describe(), balenum.FormatPlan(r3.plan)})
+	rr = append(rr, r3)
 	if r3.v != nil {
-		return r1.next, rounds, r3.v, steps
+		return r1.next, rounds, r3.v, mkSteps(rr)
 	}
-	if !balenum.SamePlan(r3.c, r2.plan, r3.plan) {
-		return r1.next, rounds, &balenum.Verdict{Key: "convergence:third-round-changes-the-assignment", What: "the group did not settle within two rebalances: the third round (no change in between) moves partitions: round 2 " + balenum.NormalizedKey(r2.plan) + " round 3 " + balenum.NormalizedKey(r3.plan)}, steps
+	if balenum.PlanCode(r3.c, r2.plan) != balenum.PlanCode(r3.c, r3.plan) {
+		return r1.next, rounds, &balenum.Verdict{Key: "convergence:third-round-changes-the-assignment", What: "the group did not settle within two rebalances: the third round (no change in between) moves partitions: round 2 " + balenum.NormalizedKey(r2.plan) + " round 3 " + balenum.NormalizedKey(r3.plan)}, mkSteps(rr)
 	}
-	return r1.next, rounds, nil, steps
+	return r1.next, rounds, nil, nil
 }
 
 func stateSize(s *state) int {
@@ -438,7 +492,10 @@ func main() {
 		replay(os.Args[2])
 		return
 	}
-	balenum.TuneGC(256 << 20)
+	if pp := os.Getenv("C27_PPROF"); pp != "" {
+		f, _ := os.Create(pp)
+		pprof.StartCPUProfile(f)
+	}
 	r := ev.New("C27", "model_checking")
 	thorough := ev.Thorough()
 	// bounds
@@ -446,7 +503,7 @@ func main() {
 	if thorough {
 		startMembers, slots, startTotal, startTotalAtMax, orders = 4, 4, 5, 3, 2
 	}
-	e := &explorer{slots: slots, orders: orders, coll: balenum.NewCollector()}
+	e := &explorer{slots: slots, orders: orders, coll: balenum.NewCollector(), clean: balenum.NewCollector()}
 	r.Rule("BFS over rebalance rounds, depth 3. Start states: every (members<=bound, subscriptions = non-empty topic subsets, partition counts, ownership map partition -> nobody | one member | two conflicting members, member generation current | stale). From every visited state the stable continuation S -r-> R1 -r-> R2 -r-> R3 runs on the real balancer; then every single environment change (leave / join with each subscription / subscribe / drop a topic with or without releasing its partitions) is applied to R1 and the resulting states, deduplicated by canonical form (partition counts, per slot presence, subscription, owned set, generation rank), are explored the same way to depth 3. distinct = canonical states explored")
 	r.Assume(
 		"a member that takes part in a round afterwards owns exactly its assignment at the new generation (diffAssigned + lastAssigned = nowAssigned); members that left own nothing the group knows of",
@@ -478,16 +535,23 @@ func main() {
 				e.coll.Add(v.Key, v.What, stateSize(s)+len(path)*1000000, func() any {
 					return artefact{State: sc, Order: o, Path: pc, Steps: steps}
 				})
+				if isClean(s) {
+					e.clean.Add(v.Key, v.What, stateSize(s)+len(path)*1000000, func() any {
+						return artefact{State: sc, Order: o, Path: pc, Steps: steps}
+					})
+				}
 			}
 			if r1 == nil {
 				continue
 			}
 			// did round 1 withhold anything?
 			want, got := 0, 0
-			c1, _ := r1.toCase(o)
 			for t := range s.Parts {
-				if c1.TopicWanted(t) {
-					want += int(s.Parts[t])
+				for i := range r1.M {
+					if r1.M[i].Present && r1.M[i].Subs&(1<<uint(t)) != 0 {
+						want += int(s.Parts[t])
+						break
+					}
 				}
 			}
 			for i := range r1.M {
@@ -536,6 +600,7 @@ func main() {
 			}
 		}
 	}
+	balenum.TuneGC(256 << 20)
 	ch := make(chan *balenum.Block, 64)
 	var wg sync.WaitGroup
 	var startStates int64
@@ -645,7 +710,22 @@ func main() {
 		for k, s := range a.Steps {
 			what += fmt.Sprintf("round %d input:\n%s  plan: %s\n", k+1, s.Input, s.Plan)
 		}
-		r.Violation(f.Key, fmt.Sprintf("%s(%d states hit this class; smallest shown)", what, f.Count), f.Artefact)
+		what += fmt.Sprintf("(%d states hit this class; smallest shown)", f.Count)
+		for _, cf := range e.clean.Findings() {
+			if cf.Key == f.Key {
+				ca := cf.Artefact.(artefact)
+				what += fmt.Sprintf("\n%d of them are conflict-free same-generation states; smallest:\n", cf.Count)
+				if len(ca.Path) > 0 {
+					what += fmt.Sprintf("reached from a start state by: %v\n", ca.Path)
+				}
+				for k, s := range ca.Steps {
+					what += fmt.Sprintf("round %d input:\n%s  plan: %s\n", k+1, s.Input, s.Plan)
+				}
+				a.CleanExample = &ca
+			}
+		}
+		r.Violation(f.Key, what, a)
 	}
+	pprof.StopCPUProfile()
 	r.Finish()
 }
